@@ -247,6 +247,30 @@ func init() {
 				}
 				add(h)
 			}
+			// dedicated: one value with 5..7 documents (a posting list with spare capacity behind it) next to values
+			// with one document each, and retrievals assigning four or more values to the field between retrievals on
+			// the first value alone -- a retrieval must leave the index's own lists as they were
+			for _, kind := range []string{"kgroups", "compact"} {
+				for _, big := range []int{5, 6, 7} {
+					c := eCase{Kind: kind, Policy: "error"}
+					ids := []int64{2, 5, 9, 14, 20, 23, 27}
+					for _, id := range ids[:big] {
+						c.Docs = append(c.Docs, eDoc{ID: id, Cons: []eConj{{{F: 0, Inc: true, V: tvSlice("[]int", tvInt("int", 1))}}}})
+					}
+					for k, id := range []int64{3, 6, 4, 30} {
+						c.Docs = append(c.Docs, eDoc{ID: id, Cons: []eConj{{{F: 0, Inc: true, V: tvSlice("[]int", tvInt("int", int64([]int{2, 7, 8, 9}[k])))}}}})
+					}
+					one := eQuery{A: []eAssign{{F: 0, V: tvInt("int", 1)}}}
+					many := eQuery{A: []eAssign{{F: 0, V: tvSlice("[]int", tvInt("int", 1), tvInt("int", 2), tvInt("int", 7), tvInt("int", 8))}}}
+					more := eQuery{A: []eAssign{{F: 0, V: tvSlice("[]int", tvInt("int", 9), tvInt("int", 8), tvInt("int", 1), tvInt("int", 7), tvInt("int", 2))}}}
+					c.Queries = []eQuery{one, many, one, many, more, one, {A: []eAssign{{F: 0, V: tvSlice("[]int", tvInt("int", 2), tvInt("int", 7))}}}, more, one}
+					h := histCase{Hist10: true, Cases: []eCase{c}}
+					for range c.Queries {
+						h.Order = append(h.Order, 0)
+					}
+					add(h)
+				}
+			}
 			// roaring histories with failing retrievals: a retrieval that fails half-way (after some field's
 			// bitmaps went into the temporary bitmap) must not leak into later retrievals of ANY scanner
 			nr := 25
